@@ -107,7 +107,11 @@ type RouteC struct {
 	TG    bool     `json:"tg,omitempty"`
 	TMG   bool     `json:"tmg,omitempty"`
 	NoRes bool     `json:"nores,omitempty"`
-	FU    []string `json:"fu,omitempty"` // fromUsers: no effect on validation (not sent to the model), exercised by route matching
+	FP    []int    `json:"fp,omitempty"`  // fromPorts
+	FR    []string `json:"fr,omitempty"`  // items of fromPortRanges ("80", "1000-2000", junk)
+	TP2   []int    `json:"tp2,omitempty"` // toPorts
+	TR    []string `json:"tr,omitempty"`  // items of toPortRanges
+	FU    []string `json:"fu,omitempty"`  // fromUsers: no effect on validation (not sent to the model), exercised by route matching
 }
 
 type RouterC struct {
@@ -118,7 +122,22 @@ type RouterC struct {
 	Routes []RouteC `json:"routes,omitempty"`
 }
 
+type ApiLC struct {
+	TLS  bool `json:"tls,omitempty"`
+	Cert bool `json:"cert,omitempty"`
+	CAs  bool `json:"cas,omitempty"`
+}
+
+type ApiC struct {
+	En     bool    `json:"en,omitempty"`
+	Pprof  bool    `json:"pprof,omitempty"`
+	Static bool    `json:"static,omitempty"`
+	Secret string  `json:"secret,omitempty"` // "" | plain | wild | bad
+	L      []ApiLC `json:"l,omitempty"`
+}
+
 type ConfigC struct {
+	API     *ApiC     `json:"api,omitempty"`
 	Servers []ServerC `json:"servers,omitempty"`
 	Clients []ClientC `json:"clients,omitempty"`
 	Groups  []GroupC  `json:"groups,omitempty"`
@@ -150,6 +169,26 @@ func encL(l []string) string {
 	x := make([]string, len(l))
 	for i, s := range l {
 		x[i] = enc(s)
+	}
+	return strings.Join(x, ",")
+}
+
+func ints(l []int) string {
+	x := make([]string, len(l))
+	for i, n := range l {
+		x[i] = strconv.Itoa(n)
+	}
+	return strings.Join(x, ",")
+}
+
+// items renders port range items for the driver: an empty item is sent as "x" (junk either way)
+func items(l []string) string {
+	x := make([]string, len(l))
+	for i, s := range l {
+		if s == "" {
+			s = "x"
+		}
+		x[i] = s
 	}
 	return strings.Join(x, ",")
 }
@@ -214,9 +253,19 @@ func (c ConfigC) Lines() []string {
 	r := c.Router
 	ls = append(ls, fmt.Sprintf("router dt=%s du=%s ds=%s ps=%s", enc(r.DT), enc(r.DU), encL(r.DS), encL(r.PS)))
 	for _, rt := range r.Routes {
-		ls = append(ls, fmt.Sprintf("route name=%s net=%s client=%s res=%s fs=%s fps=%s td=%s tds=%s tp=%s tps=%s tmp=%s tmps=%s fg=%s tg=%s tmg=%s nores=%s",
+		ls = append(ls, fmt.Sprintf("route name=%s net=%s client=%s res=%s fs=%s fps=%s td=%s tds=%s tp=%s tps=%s tmp=%s tmps=%s fg=%s tg=%s tmg=%s nores=%s fu=%s fp=%s fr=%s tp2=%s tr=%s",
 			enc(rt.Name), enc(rt.Net), enc(rt.Cl), enc(rt.Res), encL(rt.FS), encL(rt.FPS), b01(rt.TD), encL(rt.TDS), b01(rt.TP), encL(rt.TPS),
-			b01(rt.TMP), encL(rt.TMPS), b01(rt.FG), b01(rt.TG), b01(rt.TMG), b01(rt.NoRes)))
+			b01(rt.TMP), encL(rt.TMPS), b01(rt.FG), b01(rt.TG), b01(rt.TMG), b01(rt.NoRes), encL(rt.FU), ints(rt.FP), items(rt.FR), ints(rt.TP2), items(rt.TR)))
+	}
+	if c.API != nil {
+		sec := c.API.Secret
+		if sec == "" {
+			sec = "none"
+		}
+		ls = append(ls, fmt.Sprintf("api en=%s pprof=%s static=%s secret=%s", b01(c.API.En), b01(c.API.Pprof), b01(c.API.Static), sec))
+		for _, l := range c.API.L {
+			ls = append(ls, fmt.Sprintf("apil tls=%s cert=%s cas=%s", b01(l.TLS), b01(l.Cert), b01(l.CAs)))
+		}
 	}
 	return ls
 }
@@ -456,7 +505,11 @@ func (c ConfigC) JSON(dir string) []byte {
 	if len(c.Router.DS) > 0 {
 		var l []M
 		for _, n := range c.Router.DS {
-			l = append(l, M{"name": n, "path": filepath.Join(dir, "ds.txt")})
+			file := "ds.txt"
+			if n == "hinted" { // F24 probe: a valid set whose capacity hint line is absurd
+				file = "ds_hint.txt"
+			}
+			l = append(l, M{"name": n, "path": filepath.Join(dir, file)})
 		}
 		r["domainSets"] = l
 	}
@@ -484,6 +537,18 @@ func (c ConfigC) JSON(dir string) []byte {
 		}
 		if len(rt.FU) > 0 {
 			m["fromUsers"] = rt.FU
+		}
+		if len(rt.FP) > 0 {
+			m["fromPorts"] = rt.FP
+		}
+		if len(rt.FR) > 0 {
+			m["fromPortRanges"] = strings.Join(rt.FR, ",")
+		}
+		if len(rt.TP2) > 0 {
+			m["toPorts"] = rt.TP2
+		}
+		if len(rt.TR) > 0 {
+			m["toPortRanges"] = strings.Join(rt.TR, ",")
 		}
 		if rt.TD {
 			m["toDomains"] = []string{"example.com"}
@@ -522,6 +587,43 @@ func (c ConfigC) JSON(dir string) []byte {
 	}
 	if len(r) > 0 {
 		doc["router"] = r
+	}
+	if c.API != nil {
+		a := M{"enabled": c.API.En}
+		if c.API.Pprof {
+			a["debugPprof"] = true
+		}
+		if c.API.Static {
+			a["staticPath"] = dir
+		}
+		switch c.API.Secret {
+		case "plain":
+			a["secretPath"] = "s3cret/path"
+		case "wild":
+			a["secretPath"] = "{anything}"
+		case "bad":
+			a["secretPath"] = "x/{y...}"
+		}
+		var ll []M
+		for _, l := range c.API.L {
+			x := M{"network": "tcp", "address": loadAddr}
+			if l.TLS {
+				x["enableTLS"] = true
+			}
+			if l.Cert {
+				x["certList"] = "nosuchlist"
+			}
+			if l.CAs {
+				x["clientCAs"] = "nosuchpool"
+			}
+			ll = append(ll, x)
+		}
+		if ll != nil {
+			a["listeners"] = ll
+		} else {
+			a["listeners"] = []M{}
+		}
+		doc["api"] = a
 	}
 	b, err := json.MarshalIndent(doc, "", " ")
 	if err != nil {
